@@ -1682,7 +1682,9 @@ def gen_if_block(node, code, codegen):
     if cur_else_stmt and codegen.debug_info_enabled:
         code.add(('_dbg_info_end', cur_else_stmt))
 
-    gen_code_for_block(node.else_body, code, codegen)
+    if node.else_stmt is not None or node.else_body:
+        # (a missing ELSE is not an empty block: no marker for it)
+        gen_code_for_block(node.else_body, code, codegen)
     code.add(('_label', endif_label))
 
 
